@@ -249,3 +249,12 @@ Proof.
   unfold expand_rows in *. cbn [flat_map raw_cells fold_right]. fold (raw_cells rs).
   rewrite concat_app, app_length, Nat2Z.inj_add, IH, expand_one_cells. reflexivity.
 Qed.
+
+Lemma space_count_nonneg p : 0 <= space_count p.
+Proof. destruct p as [c|]; simpl; [destruct (c >? 0) eqn:E; [apply Z.gtb_lt in E; lia | lia] | lia]. Qed.
+
+Lemma space_count_unbounded : forall K : Z, exists c, space_count (Some c) > K.
+Proof.
+  intro K. exists (Z.max (K + 1) 1). unfold space_count.
+  destruct (Z.max (K + 1) 1 >? 0) eqn:E; [lia | destruct (Z.gtb_spec (Z.max (K + 1) 1) 0); [discriminate | lia]].
+Qed.
